@@ -205,7 +205,11 @@ Qed.
 
 (* ------------------------------------------------------------------ coherence of the tables *)
 
-Definition offender_names : list (list N) := map (fun t => fst (fst t)) cconf_offenders.
+Definition off_entry (t : list N * list N * pval * pval) : list N := fst (fst (fst t)).
+Definition off_key (t : list N * list N * pval * pval) : list N := snd (fst (fst t)).
+Definition off_wrong (t : list N * list N * pval * pval) : pval := snd (fst t).
+Definition off_right (t : list N * list N * pval * pval) : pval := snd t.
+Definition offender_names : list (list N) := map off_entry cconf_offenders.
 
 (* THE GOAL (full strength).  False today because of F19; see [table_coherent_refuted]. *)
 Definition table_coherent_stmt : Prop :=
@@ -215,16 +219,25 @@ Definition table_coherent_stmt : Prop :=
 
 (* every listed offender exists, has exactly the listed wrong value and violates the rule
    (by vm_compute over the list in Lemmas/CoinsExpected.v) -- this also makes the list tight *)
-Definition offender_real (t : list N * list N * pval) : bool :=
-  match find_cc (fst (fst t)) coins_conf_table with
+Definition pval_eqb (x y : pval) : bool :=
+  match x, y with
+  | PI a, PI b => a =? b
+  | PB a, PB b => list_eqb a b
+  | PS a, PS b => list_eqb a b
+  | _, _ => false
+  end.
+
+(* the entry exists, violates the rule, holds the listed wrong value under the listed key, and the
+   listed right value would satisfy the rule for that key *)
+Definition offender_real (t : list N * list N * pval * pval) : bool :=
+  match find_cc (off_entry t) coins_conf_table with
   | Some e =>
       negb (cconf_coherent e) &&
-      match assoc (snd (fst t)) (cc_params e), snd t with
-      | Some (PI a), PI b => a =? b
-      | Some (PB a), PB b => list_eqb a b
-      | Some (PS a), PS b => list_eqb a b
-      | _, _ => false
-      end
+      match assoc (off_key t) (cc_params e) with
+      | Some v => pval_eqb v (off_wrong t)
+      | None => false
+      end &&
+      negb (cc_param_ok (off_key t, off_wrong t)) && cc_param_ok (off_key t, off_right t)
   | None => false
   end.
 
@@ -244,21 +257,21 @@ Proof.
   intros Hne [H _]. pose proof cconf_offenders_tight as T.
   destruct cconf_offenders as [|t r]; [congruence|].
   simpl in T. apply andb_true_iff in T. destruct T as [T _].
-  unfold offender_real in T. destruct (find_cc (fst (fst t)) coins_conf_table) as [e|] eqn:F; [|discriminate].
-  apply andb_true_iff in T. destruct T as [T _]. apply negb_true_iff in T.
+  unfold offender_real in T. destruct (find_cc (off_entry t) coins_conf_table) as [e|] eqn:F; [|discriminate].
+  rewrite !andb_true_iff in T. destruct T as [[[T _] _] _]. apply negb_true_iff in T.
   destruct (find_cc_In _ _ _ F) as [I _]. rewrite (H e I) in T. discriminate.
 Qed.
 
 (* the concrete witness as a closed statement (names the entry, the key and the value) *)
 Lemma table_coherent_witness : forall t, In t cconf_offenders ->
-  exists e, In e coins_conf_table /\ cc_attr e = fst (fst t) /\ cconf_coherent e = false /\
-            exists v, assoc (snd (fst t)) (cc_params e) = Some v.
+  exists e, In e coins_conf_table /\ cc_attr e = off_entry t /\ cconf_coherent e = false /\
+            exists v, assoc (off_key t) (cc_params e) = Some v /\ pval_eqb v (off_wrong t) = true.
 Proof.
   intros t Ht. pose proof (proj1 (forallb_forall _ _) cconf_offenders_tight t Ht) as T.
-  unfold offender_real in T. destruct (find_cc (fst (fst t)) coins_conf_table) as [e|] eqn:F; [|discriminate].
-  apply andb_true_iff in T. destruct T as [T1 T2]. apply negb_true_iff in T1.
+  unfold offender_real in T. destruct (find_cc (off_entry t) coins_conf_table) as [e|] eqn:F; [|discriminate].
+  rewrite !andb_true_iff in T. destruct T as [[[T1 T2] _] _]. apply negb_true_iff in T1.
   destruct (find_cc_In _ _ _ F) as [I A]. exists e. repeat split; auto.
-  destruct (assoc (snd (fst t)) (cc_params e)) as [v|]; [eauto|discriminate].
+  destruct (assoc (off_key t) (cc_params e)) as [v|]; [eauto|discriminate].
 Qed.
 
 (* everything except the listed offenders *)
@@ -356,7 +369,25 @@ Proof. vm_compute. reflexivity. Qed.
 
 Lemma registry_equal : all_coins = Registry.golden.
 Proof. vm_compute. reflexivity. Qed.
-Lemma registry_coins_conf_equal : coins_conf_table = Registry.golden_coins_conf.
+(* The snapshot holds the values the external registries prescribe.  The source table is compared
+   with it after repairing exactly the listed offenders (entry, key, wrong -> right); with the
+   offender list empty this is plain equality. *)
+Definition repair_params (a : list N) (ps : list (list N * pval)) : list (list N * pval) :=
+  map (fun kv =>
+         match find (fun t => list_eqb (off_entry t) a && list_eqb (off_key t) (fst kv) &&
+                              pval_eqb (off_wrong t) (snd kv)) cconf_offenders with
+         | Some t => (fst kv, off_right t)
+         | None => kv
+         end) ps.
+Definition repair (e : cconf) : cconf :=
+  {| cc_attr := cc_attr e; cc_name := cc_name e; cc_abbr := cc_abbr e;
+     cc_params := repair_params (cc_attr e) (cc_params e) |}.
+
+Lemma registry_coins_conf_equal : map repair coins_conf_table = Registry.golden_coins_conf.
+Proof. vm_compute. reflexivity. Qed.
+
+(* and the repaired table is coherent throughout: the listed repairs are sufficient *)
+Lemma repaired_table_coherent : forallb cconf_coherent (map repair coins_conf_table) = true.
 Proof. vm_compute. reflexivity. Qed.
 Lemma registry_slip44_equal : slip44_table = Registry.golden_slip44.
 Proof. vm_compute. reflexivity. Qed.
